@@ -139,6 +139,10 @@ static int build_menu(int x, struct op *menu)
         }
         if (k != 0 && m_status[k] != ST_RUNNING) {
             menu[n++] = (struct op){ OP_START, k, 0 };
+            if (m_status[k] == ST_FINISHED) {
+                /* the other documented way to run it again: cmi_coroutine_reset (back to "created"), then start */
+                menu[n++] = (struct op){ OP_START, k, 1 };
+            }
         }
     }
     if (x != 0 && suspended_ok(m_parent[x])) {
@@ -202,6 +206,13 @@ static bool perform(int x, const struct op *o, void **retval)
         snprintf(opn, sizeof opn, "%s@depth%d", o->kind == OP_RESUME ? "resume" : "transfer", o->depth);
         break;
     case OP_START:
+        if (o->depth == 1) {
+            cmi_coroutine_reset(cptr(t));
+            if (cmi_coroutine_status(cptr(t)) != CMI_COROUTINE_CREATED || cmi_coroutine_exit_value(cptr(t)) != NULL) {
+                FAIL("reset", "coroutine %d after cmi_coroutine_reset: status %d, exit value %p", t,
+                     (int)cmi_coroutine_status(cptr(t)), cmi_coroutine_exit_value(cptr(t)));
+            }
+        }
         fn = (void *)cmi_coroutine_start;
         a0 = (uint64_t)(uintptr_t)cptr(t);
         a1 = msg;
